@@ -123,7 +123,24 @@ func genFields(r *rand.Rand, n int, tier string, out *bufio.Writer) {
 	}
 }
 
+// failAfter is a writer that accepts n bytes and then fails.
+type failAfter struct{ n int }
+
+func (f *failAfter) Write(p []byte) (int, error) {
+	if len(p) <= f.n {
+		f.n -= len(p)
+		return len(p), nil
+	}
+	k := f.n
+	f.n = 0
+	return k, errInjected
+}
+
 func showFields(wf *gowarc.WarcFields) string {
+	// a serialization that fails half way (the destination breaks) leaves no trace in later ones
+	if wf != nil && len(*wf) > 0 {
+		wf.Write(&failAfter{n: len(*wf) % 5})
+	}
 	// the final state is observed through the public String(): "Name: value\r\n" per field
 	return hxs(wf.String())
 }
@@ -220,6 +237,7 @@ func runFields(toks []string) (string, string) {
 				}
 			case "write":
 				var sb strings.Builder
+				wf.Write(&failAfter{n: 3}) // a failed write first: the next one is complete and only itself
 				if _, err := wf.Write(&sb); err != nil {
 					o = "s:ERR"
 				} else {
